@@ -78,6 +78,10 @@ SC = scenarios()
 
 def sockaddr(fam, a):
     """the a-th resolved address: IPv4 results are (host, port), IPv6 results (host, port, flowinfo, scope_id)"""
+    if fam == 'v6-link-local':
+        # one link-local host reachable over several interfaces (what mDNS returns for a .local name): the same host
+        # string and port, told apart by the scope id / flow label only - each is a resolved address of its own
+        return ('fe80::1', 80, a // 3, 2 + a % 3)
     v6 = fam == 'v6' or (fam == 'v6-first' and a % 2 == 0) or (fam == 'v4-first' and a % 2 == 1)
     return ('2001:db8::%d' % (a + 1), 80, 0, a % 3) if v6 else ('10.0.0.%d' % (a + 1), 80)
 
@@ -136,12 +140,12 @@ def cases(tier, seed, i, n):
             for j in range(0, naddr + 1):
                 for how in ('refused', 'timeout', 'sockfail'):
                     for name in ('text-exchange', 'client-close'):
-                        for fam in ('v4', 'v6', 'v6-first', 'v4-first'):
+                        for fam in ('v4', 'v6', 'v6-first', 'v4-first', 'v6-link-local'):
                             yield dict(kind='addr', sc=name, naddr=naddr, j=j, how=how, fam=fam)
         for naddr in (2, 3):
             for first_ok in range(naddr):
                 for second_ok in range(naddr):
-                    for fam in ('v4', 'v6-first', 'v4-first'):
+                    for fam in ('v4', 'v6-first', 'v4-first', 'v6-link-local'):
                         yield dict(kind='addr-reconnect', naddr=naddr, first_ok=first_ok, second_ok=second_ok, fam=fam)
         for bfault in ('eof', 'reset', 'protocol-error', 'server-close'):
             for astuck in ('app-send', 'app-ping', 'app-close'):
